@@ -22,6 +22,8 @@ ASSUMPTIONS = ["records LONGER than the header are not specified and not generat
 CELLS_FULL = ["", " ", "1", " 2 ", "1.5", "abc", "a,b", 'say "hi"', "x\ny", "1e3", "nan", "inf", "-inf", "Infinity", "0x1", "1_000",
               "é", "x\r\ny", "c\rd", "+3", ".5", "a;b", "t\tu", "١٢", " pad ", "True", "None", "1 2", "2", "2.0", "0", "-0.0", "1000"]
 CELLS_SMALL = ["", " ", "7", " 2 ", "1.5", "abc", "inf", "a,b", "x\r\ny"]
+# characters that str.splitlines() treats as line boundaries but the csv module (and a text file opened the usual way) does not
+CELLS_SEPS = ["a\x0bb", "a\x0cb", "a\x1cb", "a\x1db", "a\x1eb", "a\x85b", "a\u2028b", "a\u2029b", "7", ""]
 HEADERS1 = [("h",), ("",), ("1",), (" x ",), ("a,b",)]
 HEADERS2 = [("h", "g"), ("h", "h"), ("", ""), ("1", "1.5"), ("A", "a")]
 DELIMS = [",", ";", "\t"]
@@ -231,6 +233,8 @@ def check(ctx):
     for h in (HEADERS2 if ctx.thorough else HEADERS2[:3]):
         for first in cells2:
             units.append(("w2", cells2, h, first))
+    units += [("w1", CELLS_SEPS, h) for h in (("h",), ("a\x0cb",))]
+    units += [("w2", CELLS_SEPS, ("h", "g"), first) for first in CELLS_SEPS]
     units.append(("empty",))
     agg = core.merge_all(core.pmap(run_unit, units))
     agg.notes["bound"] = f"width-1 grids over {len(cells1)} cell texts, width-2 grids over {len(cells2)}; <=2 records"
